@@ -286,7 +286,16 @@ class Run:
             d = os.path.join(ROOT, "replays", self.prop)
             os.makedirs(d, exist_ok=True)
             seen = set()
-            for case in self.violations[:20]:
+            # at most 20 replay files, spread over the kinds of violating cases (first come first served within a kind)
+            by_kind = {}
+            for case in self.violations:
+                by_kind.setdefault(str(case.get("kind")), []).append(case)
+            chosen = []
+            while len(chosen) < 20 and any(by_kind.values()):
+                for k in list(by_kind):
+                    if by_kind[k] and len(chosen) < 20:
+                        chosen.append(by_kind[k].pop(0))
+            for case in chosen:
                 blob = json.dumps(case, sort_keys=True)
                 h = hashlib.sha1(blob.encode()).hexdigest()[:12]
                 if h in seen:
